@@ -16,7 +16,7 @@ F64_TB = [
 
 PROPS = {
     "C01": dict(
-        modules=["SpatialId.Props.C01"],
+        modules=["SpatialId.Props.C01", "SpatialId.Props.Facts.Point"],
         families=[("newpt", 10000, 80000), ("points", 30000, 250000), ("f64", 20000, 200000)],
         trusted_base=COMMON_TB + F64_TB,
         assumptions=["multiplication/division by 2^k is modelled as exponent adjustment (IEEE 754 exactness)"],
@@ -33,7 +33,7 @@ PROPS = {
         technique="Lean 4 theorems over a bit-exact software-binary64 model + differential correspondence + exact-rational checker",
     ),
     "C02": dict(
-        modules=["SpatialId.Props.C02"],
+        modules=["SpatialId.Props.C02", "SpatialId.Props.Facts.Point"],
         families=[("geom", 20000, 150000), ("ctrrt", 10000, 100000), ("f64", 10000, 100000)],
         trusted_base=COMMON_TB + F64_TB,
         assumptions=["row latitudes RadianToDegree(atan(sinh(pi(1-2k/2^h)))) are oracle values evaluated by the same Go expression"],
@@ -50,7 +50,7 @@ PROPS = {
     ),
 
     "C06": dict(
-        modules=["SpatialId.Props.C06"],
+        modules=["SpatialId.Props.C06", "SpatialId.Props.Facts.Line"],
         families=[("line", 4000, 30000), ("f64", 5000, 50000)],
         trusted_base=COMMON_TB + F64_TB + ["the row of every latitude the recursion looks up is an oracle table produced by the "
                                             "harness with the library's own (hooked) function"],
@@ -71,7 +71,7 @@ PROPS = {
         technique="Lean 4 theorems over a bit-exact software-binary64 model + differential correspondence + independent geometric checker",
     ),
     "C07": dict(
-        modules=["SpatialId.Props.C07"],
+        modules=["SpatialId.Props.C07", "SpatialId.Props.Facts.Shift"],
         families=[("shift", 20000, 150000), ("shift2", 8000, 60000)],
         trusted_base=COMMON_TB,
         assumptions=["float64 math.Pow/math.Mod on integers below 2^53 are exact (|x+dx| < 2^53)"],
@@ -85,7 +85,7 @@ PROPS = {
         technique="Lean 4 theorems over an executable model + differential correspondence with the Go code",
     ),
     "C03": dict(
-        modules=["SpatialId.Props.C03", "SpatialId.Props.Tie"],
+        modules=["SpatialId.Props.C03", "SpatialId.Props.Tie", "SpatialId.Props.Facts.Zoom"],
         families=[("chgExt", 12000, 60000), ("chgSp", 6000, 40000), ("axis", 12000, 100000), ("axisLattice", 1, 1)],
         trusted_base=COMMON_TB,
         assumptions=["int64(math.Pow(2, n)) is exact for 0 <= n <= 62"],
@@ -100,7 +100,7 @@ PROPS = {
         technique="Lean 4 theorems over an executable model + differential correspondence with the Go code",
     ),
     "C04": dict(
-        modules=["SpatialId.Props.C04"],
+        modules=["SpatialId.Props.C04", "SpatialId.Props.Facts.Zoom"],
         families=[("mrgExt", 4000, 20000), ("mrgSp", 3000, 15000)],
         trusted_base=COMMON_TB + ["Go map-based grouping read as a declarative group-by (same groups, same member order)"],
         assumptions=["int64(math.Pow(2, n)) is exact for 0 <= n <= 62"],
@@ -135,7 +135,7 @@ PROPS = {
         technique="Lean 4 theorems over an executable model + differential correspondence with the Go code",
     ),
     "C08": dict(
-        modules=["SpatialId.Props.C08"],
+        modules=["SpatialId.Props.C08", "SpatialId.Props.Facts.Shift"],
         families=[("nbr", 12000, 80000), ("nN", 3000, 20000)],
         trusted_base=COMMON_TB,
         assumptions=["float64 math.Pow/math.Mod on integers below 2^53 are exact"],
@@ -149,7 +149,7 @@ PROPS = {
         technique="Lean 4 theorems over an executable model + differential correspondence with the Go code",
     ),
     "C09": dict(
-        modules=["SpatialId.Props.C09"],
+        modules=["SpatialId.Props.C09", "SpatialId.Props.Facts.Point", "SpatialId.Props.Facts.Zoom"],
         families=[("nest", 20000, 150000), ("zio", 3000, 20000), ("mrgkids", 3000, 20000), ("ovkids", 3000, 20000)],
         trusted_base=COMMON_TB + F64_TB,
         assumptions=["the binary64 quotient (lon+180)/360 has at most 53 significant bits (true of every hardware double)"],
@@ -162,7 +162,7 @@ PROPS = {
         technique="Lean 4 theorems (corollaries over the executable models) + composite differential checks on the Go code",
     ),
     "C10": dict(
-        modules=["SpatialId.Props.C10"],
+        modules=["SpatialId.Props.C10", "SpatialId.Props.Facts.Zoom"],
         families=[("notation", 30000, 200000)],
         trusted_base=COMMON_TB + ["strings.Split/strings.Join are inverse on '/'-free fields (Go library semantics)"],
         assumptions=[],
@@ -176,7 +176,7 @@ PROPS = {
         technique="Lean 4 theorems over an executable model + differential correspondence with the Go code",
     ),
     "C11": dict(
-        modules=["SpatialId.Props.C11"],
+        modules=["SpatialId.Props.C11", "SpatialId.Props.Facts.Quadkey"],
         families=[("quadkey", 30000, 200000), ("quadkeyExh", 1, 1), ("qv", 4000, 20000), ("qvrt", 2000, 10000)],
         trusted_base=COMMON_TB + ["strconv.FormatInt(n, 4) = base-4 digits, most significant first, no leading zeros"],
         assumptions=["quadkey zoom 1..31 (keys below 2^62)"],
@@ -222,7 +222,7 @@ PROPS = {
         technique="Lean 4 theorems over an executable model + differential correspondence with the Go code",
     ),
     "C14": dict(
-        modules=["SpatialId.Props.C14", "SpatialId.Props.C06"],
+        modules=["SpatialId.Props.C14", "SpatialId.Props.C06", "SpatialId.Props.Facts.Line"],
         families=[("corridor", 400, 3000), ("corridordet", 150, 1000), ("corridorD9", 1, 1)],
         trusted_base=COMMON_TB + ["closest_go (convex-hull distance), geodesy_go and the clearance fit built on them are oracles: the "
                                   "harness evaluates them with the same library calls for every line voxel and candidate voxel"],
@@ -241,7 +241,7 @@ PROPS = {
     ),
     "C15": dict(
         modules=["SpatialId.Props.C15", "SpatialId.Props.Tie", "SpatialId.Props.C01", "SpatialId.Props.C02", "SpatialId.Props.C03", "SpatialId.Props.C04",
-                 "SpatialId.Props.C05", "SpatialId.Props.C08", "SpatialId.Props.C10", "SpatialId.Props.C11", "SpatialId.Props.C13"],
+                 "SpatialId.Props.C05", "SpatialId.Props.C08", "SpatialId.Props.C10", "SpatialId.Props.C11", "SpatialId.Props.C13", "SpatialId.Props.Facts.Point"],
         families=[("reject", 40000, 300000), ("newpt", 15000, 100000), ("points", 5000, 40000), ("tiles", 1000, 5000),
                   ("qv", 1500, 8000)],
         trusted_base=COMMON_TB + F64_TB + ["Go strconv.ParseInt/Atoi and strings.Split semantics are modelled by parseInt64/splitSlash "
@@ -279,7 +279,7 @@ PROPS = {
         technique="Lean 4 theorems over executable models + metamorphic differential checks on the Go code",
     ),
     "C17": dict(
-        modules=["SpatialId.Props.C17", "SpatialId.Props.Tie"],
+        modules=["SpatialId.Props.C17", "SpatialId.Props.Tie", "SpatialId.Props.Facts.BitAlt"],
         families=[("bitalt", 30000, 200000), ("f64", 10000, 100000)],
         trusted_base=COMMON_TB + F64_TB,
         assumptions=["|vIndex| + 1 < 2^53 and vertical zoom within 0..35 (the index to altitude conversion is then exact)"],
@@ -331,7 +331,7 @@ PROPS = {
         technique="Lean 4 theorem over a regenerated global-state table + race-detector differential run",
     ),
     "C20": dict(
-        modules=["SpatialId.Props.C20", "SpatialId.Props.C20Vec"],
+        modules=["SpatialId.Props.C20", "SpatialId.Props.C20Vec", "SpatialId.Props.Facts.Quat"],
         families=[("sets", 30000, 200000), ("ashift", 20000, 200000), ("combLattice", 1, 1), ("vec", 30000, 300000),
                   ("vecnum", 20000, 200000)],
         trusted_base=COMMON_TB + F64_TB,
